@@ -500,9 +500,9 @@ def run(ctx, col: Collector):
                         for s in cur.body:
                             for c in ast.walk(s):
                                 if isinstance(c, ast.Call) and isinstance(c.func, ast.Attribute) and c.func.attr in ('append', 'insert', 'extend', 'add') \
-                                        and c.args and norm(c.args[-1]) == var and norm(c.func.value).startswith('self.'):
+                                        and c.args and _rn(pb.node, c.args[-1]) == _rn(pb.node, ast.parse(var, mode='eval').body) and norm(c.func.value).startswith('self.'):
                                     how = how or (norm(c.func.value), c.func.attr)
-                                if isinstance(c, ast.Assign) and norm(c.value) == var and norm(c.targets[0]).startswith('self.'):
+                                if isinstance(c, ast.Assign) and _rn(pb.node, c.value) == _rn(pb.node, ast.parse(var, mode='eval').body) and norm(c.targets[0]).startswith('self.'):
                                     how = how or (norm(c.targets[0]), 'assign')
                         if how:
                             stores[cls] = how
@@ -956,6 +956,11 @@ def run(ctx, col: Collector):
 
 
 # ----------------------------------------------------------------------------------------------
+
+def _rn(fn: ast.AST, e: ast.AST) -> str:
+    from .common import resolve_names
+    return resolve_names(fn, e)
+
 
 def pm_parent(act: Action, node: ast.AST) -> ast.AST:
     pm = parent_map_ast(act.node)
